@@ -219,12 +219,12 @@ var leafKinds = []leafKind{
 		return LO("$binary", LO("base64", g.secret(LS(b), ClsBin, b), "subType", LS("04").Keep()))
 	}},
 	{"null", MNull, func(g *Gen) *LNode { return LNul().DC() }},
-	// --- reduced set ends here (8) ---
+	{"str-dollar-inside", MStr, func(g *Gen) *LNode { c := g.canary(); return g.secret(LS("US$ 100 "+c+" $x"), ClsStr, c) }},
+	// --- reduced set ends here (9) ---
 	{"str-unicode", MStr, func(g *Gen) *LNode {
 		c := g.canary()
 		return g.secret(LS("Zoë 日本 "+c+" 😀 ñ"), ClsStr, c)
 	}},
-	{"str-dollar-inside", MStr, func(g *Gen) *LNode { c := g.canary(); return g.secret(LS("US$ 100 "+c+" $x"), ClsStr, c) }},
 	{"str-digits", MStr, func(g *Gen) *LNode {
 		g.nsec++
 		c := fmt.Sprintf("90210555123498765%03d", g.nsec%1000)
@@ -275,7 +275,7 @@ var leafKinds = []leafKind{
 	}},
 }
 
-const reducedLeaves = 8
+const reducedLeaves = 9
 
 // leaf is the focused literal: a free choice among the leaf kinds the position admits.
 func (g *Gen) leaf(mask int) *LNode {
